@@ -571,14 +571,22 @@ func checkC11(e *worlds.Env, L *lbWorld, sample *lbSample) {
 	passive := L.failDur > 0 && L.h.HealthChecks != nil && L.h.HealthChecks.Passive != nil
 	// active: last completed probe per peer before a step
 	type probe struct {
-		step int
+		step int // step at which the probing goroutine returned (verdict stored)
 		ok   bool
 		at   time.Duration
+		dial int // step at which its dial completed
 	}
 	probes := map[string][]probe{}
 	for _, d := range dials {
 		if !isHandler(d.By) {
-			probes[d.Addr] = append(probes[d.Addr], probe{d.Step, d.OK, d.Done})
+			// a probe takes effect when its goroutine has stored the verdict, which is some
+			// scheduler steps after the dial completed: until that goroutine has returned the
+			// probe counts as in flight (step -1 = still running at the end of the run)
+			st := -1
+			if x, ok := e.S.ExitStep[d.By]; ok {
+				st = x
+			}
+			probes[d.Addr] = append(probes[d.Addr], probe{st, d.OK, d.Done, d.Step})
 		}
 	}
 	for _, ev := range evs {
@@ -645,10 +653,11 @@ func checkC11(e *worlds.Env, L *lbWorld, sample *lbSample) {
 					ps := probes[a]
 					lastOK, seen := true, false
 					for _, p := range ps {
-						if p.step < ev.Step {
+						switch {
+						case p.step >= 0 && p.step < ev.Step:
 							lastOK, seen = p.ok, true
-						} else if p.step == ev.Step {
-							ambiguous = true
+						case p.dial <= ev.Step:
+							ambiguous = true // dial done, verdict not yet stored (or being stored)
 						}
 					}
 					if seen && !lastOK {
